@@ -5,7 +5,7 @@ Import ListNotations.
 Open Scope nat_scope.
 
 Section CV2.
-Variables (courses : list course) (parts : list participant) (pick : node -> list bool -> assignment -> list node).
+Variables (courses : list course) (parts : list participant) (rgate : node -> assignment -> out (option (list node))) (pick : node -> list bool -> assignment -> list node).
 Notation np := (np parts). Notation nc := (nc courses).
 Notation crs := (crs courses). Notation instructs := (instructs courses). Notation instr_only := (instr_only parts).
 Notation cw := (choice_weight parts).
@@ -57,17 +57,20 @@ Proof.
     rewrite (s_keep _ _ K a Hs p c ltac:(lia) ltac:(lia) Hio Hi), Hi. reflexivity.
 Qed.
 
+Hypothesis Hrg : forall nd a, exists o, rgate nd a = Val o.
+
 (* C02 step 2 in final form: a node that covers a solution is not "no solution" and its score bounds the solution's score *)
 Theorem covered_node_bound :
-  match run courses parts pick nd with
+  match run courses parts rgate pick nd with
   | Val (Infeasible _ s) | Val (Feasible _ s) => (score_of courses parts a <= s)%Z
   | HOverflow => True
+  | Panic 5 => True
   | _ => False
   end.
 Proof.
   rewrite <- placed_is_score.
-  apply (relax_ge_node courses parts pick nd a
+  apply (relax_ge_node courses parts rgate pick nd a
            (cov_A1 courses parts nd K a Hs Hc) (cov_A2 courses parts nd K a Hs Hc) (cov_A3 courses parts nd K a Hs Hc)
-           (cov_A4 courses parts nd K a Hs Hc) (cov_Wenf courses nd K Hc)).
+           (cov_A4 courses parts nd K a Hs Hc) (cov_Wenf courses nd K Hc) Hrg).
 Qed.
 End CV2.
